@@ -17,13 +17,22 @@ Open Scope Z_scope.
 
 (** ** 1. band layout: accepted shapes and where every sample goes *)
 
-(** 2-d (Y, X) *)
+(** 2-d (Y, X); [ya] is the Y axis position handed over by write_cog (absent or 0 for such an array) *)
 Theorem C15_layout_2d :
   forall h w ya b y x,
-    norm_layout [h; w] (h, w) ya = Ok (L2d, (1, h, w)) /\
+    (ya <> Some 1 -> norm_layout [h; w] (h, w) ya = Ok (L2d, (1, h, w))) /\
     src_index L2d (1, h, w) b y x = ravel [h; w] [y; x].
 Proof. exact layout_2d_thm. Qed.
 Print Assumptions C15_layout_2d.
+
+(** 2-d with dims ordered (X, Y) (Y axis position 1, since fix 43d71f8): the (w, h) array is
+    transposed, input sample (x, y) becomes row y, column x *)
+Theorem C15_layout_2d_xy :
+  forall h w b y x,
+    norm_layout [w; h] (h, w) (Some 1) = Ok (L2dT, (1, h, w)) /\
+    src_index L2dT (1, h, w) b y x = ravel [w; h] [x; y].
+Proof. exact layout_2d_xy_thm. Qed.
+Print Assumptions C15_layout_2d_xy.
 
 (** band-last (Y, X, B): input sample (y, x, b) becomes band b, row y, column x *)
 Theorem C15_layout_band_last :
@@ -60,7 +69,8 @@ Print Assumptions C15_layout_guess_ambiguous_refuted.
 Theorem C15_layout_decision_table :
   forall shape g ya,
   match norm_layout shape g ya with
-  | Ok (L2d, dims) => exists h w, shape = [h; w] /\ g = (h, w) /\ dims = (1, h, w)
+  | Ok (L2d, dims) => exists h w, shape = [h; w] /\ g = (h, w) /\ dims = (1, h, w) /\ ya <> Some 1
+  | Ok (L2dT, dims) => exists h w, shape = [w; h] /\ g = (h, w) /\ dims = (1, h, w) /\ ya = Some 1
   | Ok (LBandLast, dims) =>
       exists h w nb, shape = [h; w; nb] /\ g = (h, w) /\ dims = (nb, h, w) /\ (ya = None \/ ya = Some 0)
   | Ok (LBandFirst, dims) =>
@@ -71,7 +81,7 @@ Theorem C15_layout_decision_table :
       exists d0 d1 d2, shape = [d0; d1; d2] /\ g <> (d1, d2) /\
                        (ya = None /\ g <> (d0, d1) \/ exists v, ya = Some v /\ v <> 0)
   | Err (EAssert _) =>
-      (exists h w, shape = [h; w] /\ g <> (h, w)) \/
+      (exists d0 d1, shape = [d0; d1] /\ (ya <> Some 1 /\ g <> (d0, d1) \/ ya = Some 1 /\ g <> (d1, d0))) \/
       (exists d0 d1 d2, shape = [d0; d1; d2] /\ ya = Some 0 /\ g <> (d0, d1))
   | Err _ => False
   end.
